@@ -17,7 +17,8 @@ open MeshHeap
 
 variable {κ α : Type} [DecidableEq κ]
 
-/-- **op_frame.** Every operation of the current tree (`Op.current`: everything except the pre-74db58f
+/-- **op_frame.** (Unguarded: holds for ragged meshes and for EVERY value `Append`/`ToPointCloud` carry as the resolution of
+    `AttributeLength()` — whatever the index shift or padding, nothing existing is written.)  Every operation of the current tree (`Op.current`: everything except the pre-74db58f
     `appendOld`) leaves the observable value of EVERY valid mesh representation of the heap — pool member
     or not, argument or not — exactly as it was. -/
 theorem op_frame (E : Env α) (s : State κ α) (vs : s.Valid) (op : Op κ α) (hc : op.current = true)
@@ -177,16 +178,16 @@ def E0 : Env Nat := ⟨0, fun n x => x + n, id, fun _ need => need⟩
 
 /-- four point clouds, one index and one value of attribute `7` each, all arrays exactly full;
     then `t := base.Append(a)` (must reallocate: leaves spare capacity) and `x := t.Append(b)` (fits: in place) -/
-def witnessPre (app : Nat → Nat → Op Nat Nat) : List (Op Nat Nat) :=
+def witnessPre (app : Nat → Nat → Nat → Nat → Op Nat Nat) : List (Op Nat Nat) :=
   [ .newMesh 1 [0] 0 [] 0 [[(7, [100], 0)]],
     .newMesh 1 [0] 0 [] 0 [[(7, [200], 0)]],
     .newMesh 1 [0] 0 [] 0 [[(7, [300], 0)]],
     .newMesh 1 [0] 0 [] 0 [[(7, [400], 0)]],
-    app 0 1,      -- t  = pool[4]
-    app 4 2 ]     -- x  = pool[5]
+    app 0 1 1 1,  -- t  = pool[4]   (both have one vertex: AttributeLength() = 1)
+    app 4 2 2 1 ] -- x  = pool[5]   (t has two vertices)
 
 /-- `y := t.Append(c)`: a second derivation from the same `t` -/
-def witnessPost (app : Nat → Nat → Op Nat Nat) : List (Op Nat Nat) := [ app 4 3 ]
+def witnessPost (app : Nat → Nat → Nat → Nat → Op Nat Nat) : List (Op Nat Nat) := [ app 4 3 2 1 ]
 
 def s00 : State Nat Nat := ⟨Heap.empty, []⟩
 
@@ -244,8 +245,8 @@ theorem appliesInOrder_spec (E : Env α) (s : State κ α) (o1 o2 : Op κ α) (h
     other), with a valid `s` -/
 example :
     let s := run E0 s00 ((witnessPre .append).take 4)
-    let o1 : Op Nat Nat := .append 0 1
-    let o2 : Op Nat Nat := .append 0 2
+    let o1 : Op Nat Nat := .append 0 1 1 1
+    let o2 : Op Nat Nat := .append 0 2 1 1
     s.Valid ∧ ∃ h1 r1 h2 r2 h12 r2' h21 r1',
       o1.apply E0 s = some (h1, [r1]) ∧ o2.apply E0 s = some (h2, [r2]) ∧
       o2.apply E0 ⟨h1, s.pool ++ [r1]⟩ = some (h12, [r2']) ∧
